@@ -173,6 +173,7 @@ static NOTIFIED: Mutex<Vec<usize>> = Mutex::new(Vec::new());
 
 impl Notify for HNotify {
     fn notify(&self, id: usize) {
+        let _nc = crate::mem::NoCount::new();
         if id >= TASK_ID_BASE {
             let mut n = NOTIFIED.lock().unwrap_or_else(|p| p.into_inner());
             if !n.contains(&id) {
@@ -214,8 +215,15 @@ fn notify_handle() -> NotifyHandle {
 
 /// Runs `f` inside a futures-0.1 task whose notifications go to `task_id`.
 pub fn in_task<R, F: FnOnce() -> R>(task_id: usize, f: F) -> R {
-    let mut s = executor::spawn(future::lazy(move || Ok::<R, ()>(f())));
-    match s.poll_future_notify(&notify_handle(), task_id) {
+    // the executor plumbing belongs to the harness; only `f` is a call into the crate
+    let counting = crate::mem::is_counting();
+    let _nc = crate::mem::NoCount::new();
+    let handle = notify_handle();
+    let mut s = executor::spawn(future::lazy(move || {
+        let _c = if counting { Some(crate::mem::Count::on()) } else { None };
+        Ok::<R, ()>(f())
+    }));
+    match s.poll_future_notify(&handle, task_id) {
         Ok(Async::Ready(r)) => r,
         _ => unreachable!(),
     }
